@@ -12,4 +12,6 @@ MUTANTS = [
     dict(name="yaml-full-load", file="core/spec_fetcher.py", expect="R19.4", old="yaml.safe_load(", new="yaml.full_load("),
     dict(name="items-recursion-drops-self-reference-flag", file="core/parsing/schema_parser.py", expect="R19.5",
          old="                item_schema_context_name_for_reparse, raw_items_node, context, max_depth_override, allow_self_reference\n", new="                item_schema_context_name_for_reparse, raw_items_node, context, max_depth_override\n"),
+    dict(name="json-selected-by-first-character", file="core/spec_fetcher.py", expect="R19.4",
+         old='    if "json" in content_type.lower():', new='    if "json" in content_type.lower() or content.lstrip().startswith("{"):'),
 ]
